@@ -27,7 +27,8 @@ def _um(T):
     from typelib import unmarshals
 
     with NoTracing():
-        return unmarshals.unmarshaller(T)
+        unmarshals.unmarshaller(T)
+    return lambda x: unmarshals.unmarshal(T, x)  # the public entry point
 
 
 def _d(*xs):
